@@ -26,7 +26,10 @@ func stdEval() rel.Attr {
 func evalExpr(ctx context.Context, v rel.Value) (rel.Value, error) {
 	switch val := v.(type) {
 	case rel.String, rel.Bytes:
-		evaluated, err := EvaluateExpr(ctx, ".", val.String())
+		// Bind `//` to the safe library: with an empty scope PackageExpr.Eval
+		// substitutes the full library, which hands //os.file and //net to
+		// code running inside //eval.eval.
+		evaluated, err := EvalWithScope(ctx, ".", val.String(), SafeStdScope())
 		if err != nil {
 			panic(err)
 		}
